@@ -41,26 +41,37 @@ structure Inj where
   ranges : List (Nat × Nat)
   deriving Repr
 
-/-- `(position, highlight)` of every `Start` event, in stream order (position = end of the last `Source`). -/
-def startsFrom : Nat → List Ev → List (Nat × Nat)
+/-- Is there an `End` before the next `Source`?  (Then a span opened here may be zero-width.) -/
+def stopBeforeSource : List Ev → Bool
+  | [] => false
+  | .source _ _ :: _ => false
+  | .stop :: _ => true
+  | .start _ :: r => stopBeforeSource r
+
+/-- `(position, highlight, mayBeZeroWidth)` of every `Start` event, in stream order (position = end
+of the last `Source`). -/
+def startsFrom : Nat → List Ev → List (Nat × Nat × Bool)
   | _, [] => []
   | _, .source _ e :: r => startsFrom e r
-  | pos, .start h :: r => (pos, h) :: startsFrom pos r
+  | pos, .start h :: r => (pos, h, stopBeforeSource r) :: startsFrom pos r
   | pos, .stop :: r => startsFrom pos r
 
-def starts (evs : List Ev) : List (Nat × Nat) := startsFrom 0 evs
+def starts (evs : List Ev) : List (Nat × Nat × Bool) := startsFrom 0 evs
 
 /-- Clause 2.  `langOf h` = language id of highlight `h` (0 = the root language, exempt).  Every
-span of an injected language must START inside a content range of an injection of that language.
+span of an injected language must START inside a content range `[s,e)` of an injection of that
+language; a start exactly at `e` is accepted only for a possibly zero-width span (a MISSING token
+inserted by error recovery at the end of the content).
 (Only starts are attributable: `End` events carry no highlight, and spans of different layers may
 overlap improperly with combined injections, so an `End` cannot be matched to its `Start`.) -/
 def judgeInjected (langOf : Nat → Nat) (injs : List Inj) (evs : List Ev) : Bool :=
-  (starts evs).all fun (a, h) =>
-    langOf h == 0 || injs.any fun i => i.lang == langOf h && i.ranges.any fun (s, e) => s ≤ a && a < e
+  (starts evs).all fun (a, h, zw) =>
+    langOf h == 0 || injs.any fun i => i.lang == langOf h &&
+      i.ranges.any fun (s, e) => s ≤ a && (a < e || (zw && a == e))
 
 /-- The last highlight started at position `p` (the innermost one of the shallowest layer). -/
-def lastStartAt (st : List (Nat × Nat)) (p : Nat) : Option Nat :=
-  ((st.filter fun x => x.1 == p).getLast?).map (·.2)
+def lastStartAt (st : List (Nat × Nat × Bool)) (p : Nat) : Option Nat :=
+  ((st.filter fun x => x.1 == p).getLast?).map (·.2.1)
 
 /-- Clause 4.  A resolved local reference `(refStart, refEnd, defStart, defEnd)` of the root layer
 must carry the definition's highlight (both are leaves of the root layer, so each one's highlight
